@@ -5,6 +5,7 @@ import (
 	"fmt"
 	"math/big"
 	"testing"
+	"verif/cs"
 
 	"verif/corp"
 	"verif/eng"
@@ -33,6 +34,10 @@ type c12Case struct {
 	Cap      []string `json:"cap"`
 	Siblings []string `json:"siblings"`
 	What     string   `json:"what"`
+	// BitValues overrides index bits by arbitrary field elements (decimal), position -> value
+	BitValues map[int]string `json:"index_bit_values,omitempty"`
+	// Backend "" = evaluation engine; "r1cs" / "scs" = the gadget compiled with gnark's builder and solved
+	Backend string `json:"backend,omitempty"`
 }
 
 func c12Fn(c c12Case) gad.Fn {
@@ -56,7 +61,11 @@ func c12Expected(c c12Case) bool {
 	d := ref.HashOrNoopBN(c.Leaf)
 	for i, s := range c.Siblings {
 		sv := ref.HFromString(s)
-		if c.Bits[i] == 1 {
+		bit := c.Bits[i]
+		if v, ok := c.BitValues[i]; ok {
+			bit = int(bs(v).Int64()) // only reached for boolean overrides (see c12NonBoolean)
+		}
+		if bit == 1 {
 			d = ref.TwoToOneBN(sv, d)
 		} else {
 			d = ref.TwoToOneBN(d, sv)
@@ -67,7 +76,14 @@ func c12Expected(c c12Case) bool {
 	return d.Equal(&want)
 }
 
+var c12Systems = map[string]*cs.System{}
+
 func c12NonBoolean(c c12Case) bool {
+	for _, v := range c.BitValues {
+		if x := bs(v); x.Cmp(big.NewInt(1)) > 0 {
+			return true
+		}
+	}
 	for _, b := range append(append([]int{}, c.Bits...), c.CapBits...) {
 		if b != 0 && b != 1 {
 			return true
@@ -79,16 +95,44 @@ func c12NonBoolean(c c12Case) bool {
 func c12Run(c c12Case) caseResult {
 	var in []*big.Int
 	in = append(in, u64s(c.Leaf)...)
-	for _, b := range c.Bits {
-		in = append(in, big.NewInt(int64(b)))
+	for i, b := range c.Bits {
+		if v, ok := c.BitValues[i]; ok {
+			in = append(in, bs(v))
+		} else {
+			in = append(in, big.NewInt(int64(b)))
+		}
 	}
 	for _, b := range c.CapBits {
 		in = append(in, big.NewInt(int64(b)))
 	}
 	in = append(in, unstrs(c.Cap)...)
 	in = append(in, unstrs(c.Siblings)...)
-	res, _ := gad.Run(eng.Options{Mode: eng.Mode(c.Mode)}, in, c12Fn(c))
 	exp := !c12NonBoolean(c) && c12Expected(c)
+	if c.Backend != "" {
+		kind := cs.R1CS
+		if c.Backend == "scs" {
+			kind = cs.SCS
+		}
+		key := fmt.Sprintf("%s/%d/%d/%d", c.Backend, len(c.Leaf), len(c.Bits), len(c.Siblings))
+		sys := c12Systems[key]
+		if sys == nil {
+			var err error
+			sys, err = cs.Compile(kind, cs.MechForcedBits, len(in), 0, c12Fn(c))
+			if err != nil {
+				return caseResult{Viol: "compile-" + c.Backend, Desc: fmt.Sprintf("merkle gadget (height %d, leaf width %d) does not compile for %s: %v", len(c.Bits), len(c.Leaf), c.Backend, err)}
+			}
+			if len(c12Systems) > 8 {
+				c12Systems = map[string]*cs.System{}
+			}
+			c12Systems[key] = sys
+		}
+		serr := sys.Solve(in, nil)
+		if (serr == nil) != exp {
+			return caseResult{Viol: fmt.Sprintf("verdict-compiled-%s/%s", c.Backend, c.What), Desc: fmt.Sprintf("opening (height %d, leaf width %d, %s) on the gadget compiled to %s: solved=%v, reference says valid=%v", len(c.Bits), len(c.Leaf), c.What, c.Backend, serr == nil, exp)}
+		}
+		return caseResult{Info: map[string]any{"height": len(c.Bits), "leaf_width": len(c.Leaf), "what": c.What, "valid": exp, "backend": c.Backend}}
+	}
+	res, _ := gad.Run(eng.Options{Mode: eng.Mode(c.Mode)}, in, c12Fn(c))
 	if res.Outcome == eng.Refused && c12NonBoolean(c) {
 		return caseResult{Info: map[string]any{"what": c.What, "outcome": "REFUSED"}} // not accepted: fine
 	}
@@ -145,7 +189,7 @@ func genMerkleCase() *rapid.Generator[c12Case] {
 		for _, s := range sib {
 			c.Siblings = append(c.Siblings, hstr(s))
 		}
-		kinds := []string{"honest", "leaf-element", "leaf-element", "sibling", "index-bit", "cap-index-bit", "selected-cap-entry", "unselected-cap-entry", "wrong-cap-slot", "leaf-length", "index-bit-not-boolean", "cap-index-bit-not-boolean"}
+		kinds := []string{"honest", "leaf-element", "leaf-element", "sibling", "index-bit", "cap-index-bit", "selected-cap-entry", "unselected-cap-entry", "wrong-cap-slot", "leaf-length", "index-bit-not-boolean", "cap-index-bit-not-boolean", "forged-bit-and-sibling", "forged-bit-and-sibling"}
 		c.What = rapid.SampledFrom(kinds).Draw(t, "corruption")
 		switch c.What {
 		case "leaf-element":
@@ -186,6 +230,38 @@ func genMerkleCase() *rapid.Generator[c12Case] {
 			i := rapid.IntRange(0, h-5).Draw(t, "bit")
 			c.Bits = append([]int{}, bits...)
 			c.Bits[i] = rapid.SampledFrom([]int{2, 3, 7, 1 << 32, 1<<62 + 1}).Draw(t, "value")
+		case "forged-bit-and-sibling":
+			// a leaf that is NOT in the tree, opened with one sibling and one index "bit" (a field element
+			// outside {0,1}) chosen so that a linear left/right selection reproduces the honest pair of that level
+			if h == 4 {
+				c.What = "honest"
+				break
+			}
+			c.Leaf = append([]uint64{}, leaf...)
+			c.Leaf[rapid.IntRange(0, w-1).Draw(t, "i")] = ref.Add(c.Leaf[0], 1+rapid.Uint64Range(0, 1000).Draw(t, "delta"))
+			dFake, dHonest := ref.HashOrNoopBN(c.Leaf), ref.HashOrNoopBN(leaf)
+			if dFake.Equal(&dHonest) {
+				c.Leaf, c.What = leaf, "honest"
+				break
+			}
+			s0 := ref.HFromString(c.Siblings[0])
+			l, rgt := dHonest, s0
+			if bits[0] == 1 {
+				l, rgt = s0, dHonest
+			}
+			var sib, num, den, bit fr.Element
+			sib.Add(&l, &rgt)
+			sib.Sub(&sib, &dFake)
+			num.Sub(&l, &dFake)
+			den.Sub(&sib, &dFake)
+			if den.IsZero() {
+				c.Leaf, c.What = leaf, "honest"
+				break
+			}
+			bit.Div(&num, &den)
+			c.Siblings = append([]string{}, c.Siblings...)
+			c.Siblings[0] = hstr(sib)
+			c.BitValues = map[int]string{0: bit.String()}
 		case "cap-index-bit-not-boolean":
 			i := rapid.IntRange(0, 3).Draw(t, "bit")
 			c.CapBits = append([]int{}, c.CapBits...)
@@ -243,7 +319,7 @@ func TestC12(t *testing.T) {
 	s := newSuite("C12")
 	r := s.r
 	defer r.Flush()
-	r.Rule("synthetic trees: height 4..12 (index bits), random leaves of width 1..140 (1 in 4 of width 1..4 to hit the <=3-element shortcut), random/edge indices, random sibling hashes, root placed in the cap slot given by the top four bits; then one corruption drawn from {none, leaf element, leaf length, sibling, index bit (= swapped left/right order at that level), cap-index bit, one index or cap-index bit replaced by a value outside {0,1}, selected cap entry, unselected cap entry (must still accept), root moved to a wrong cap slot}; plus real openings of the corpus proofs (4 initial trees + 2 fold steps per query round) with and without a corrupted leaf element.  Oracle: ACCEPT <=> reference recomputation equals the selected cap entry.  Non-trivial = any corruption or a real opening; distinct = full case.")
+	r.Rule("synthetic trees: height 4..12 (index bits), random leaves of width 1..140 (1 in 4 of width 1..4 to hit the <=3-element shortcut), random/edge indices, random sibling hashes, root placed in the cap slot given by the top four bits; then one corruption drawn from {none, leaf element, leaf length, sibling, index bit (= swapped left/right order at that level), cap-index bit, one index or cap-index bit replaced by a value outside {0,1}, a forged pair (a leaf that is not in the tree together with one sibling and one non-boolean index 'bit' chosen so that a linear left/right selection reproduces the honest pair; engine and the gadget compiled to R1CS / SCS), selected cap entry, unselected cap entry (must still accept), root moved to a wrong cap slot}; plus real openings of the corpus proofs (4 initial trees + 2 fold steps per query round) with and without a corrupted leaf element.  Oracle: ACCEPT <=> reference recomputation equals the selected cap entry.  Non-trivial = any corruption or a real opening; distinct = full case.")
 	r.Assume("reference PoseidonBN128 (C10)")
 	s.on("merkle", func(b json.RawMessage) caseResult {
 		c := unmarshal[c12Case](b)
@@ -257,7 +333,13 @@ func TestC12(t *testing.T) {
 	rapidCheck(t, "synthetic", tierN(8000, 120000), func(rt *rapid.T) {
 		c := genMerkleCase().Draw(rt, "case")
 		c.Mode = int(genMode().Draw(rt, "mode"))
-		s.exec(rt, "merkle", c, "synthetic/"+c.What)
+		class := "synthetic/" + c.What
+		if (c.What == "forged-bit-and-sibling" || c.What == "index-bit-not-boolean" || c.What == "honest") && len(c.Leaf) <= 12 && len(c.Bits) <= 7 && rapid.IntRange(0, 2).Draw(rt, "compiled") == 0 {
+			// the gadget compiled with gnark's builders: their Select / Lookup2 differ in what they assert about the selector
+			c.Backend = rapid.SampledFrom([]string{"r1cs", "scs", "scs"}).Draw(rt, "backend")
+			class += "/compiled-" + c.Backend
+		}
+		s.exec(rt, "merkle", c, class)
 	})
 	n := 0
 	bases := []string{"A1", "B1"}
